@@ -748,10 +748,8 @@ class QSeparableConv1D(SeparableConv1D, PrunableLayer):
 
     spatial_start_dim = 1 if self.data_format == 'channels_last' else 2
 
-    # Explicitly broadcast inputs and kernels to 4D.
+    # Explicitly broadcast inputs to 4D.
     inputs = array_ops.expand_dims(inputs, spatial_start_dim)
-    depthwise_kernel = array_ops.expand_dims(self.depthwise_kernel, 0)
-    pointwise_kernel = array_ops.expand_dims(self.pointwise_kernel, 0)
     dilation_rate = (1,) + self.dilation_rate
 
     if self.padding == 'causal':
@@ -759,17 +757,25 @@ class QSeparableConv1D(SeparableConv1D, PrunableLayer):
     else:
       op_padding = self.padding
 
+    # The kernels are quantized as stored, so that the quantizers see the same
+    # tensors (and scaling axes) as for the saved weights.
     if self.depthwise_quantizer:
       quantized_depthwise_kernel = self.depthwise_quantizer_internal(
-          depthwise_kernel)
+          self.depthwise_kernel)
     else:
-      quantized_depthwise_kernel = depthwise_kernel
+      quantized_depthwise_kernel = self.depthwise_kernel
 
     if self.pointwise_quantizer:
       quantized_pointwise_kernel = self.pointwise_quantizer_internal(
-          pointwise_kernel)
+          self.pointwise_kernel)
     else:
-      quantized_pointwise_kernel = pointwise_kernel
+      quantized_pointwise_kernel = self.pointwise_kernel
+
+    # Explicitly broadcast the quantized kernels to 4D.
+    quantized_depthwise_kernel = array_ops.expand_dims(
+        quantized_depthwise_kernel, 0)
+    quantized_pointwise_kernel = array_ops.expand_dims(
+        quantized_pointwise_kernel, 0)
 
     outputs = tf.keras.backend.separable_conv2d(
         inputs,
